@@ -12,6 +12,7 @@ import (
 	"path/filepath"
 	"sort"
 	"strings"
+	"sync"
 	"sync/atomic"
 
 	"github.com/grailbio/bigslice/exec"
@@ -44,6 +45,7 @@ type combStats struct {
 	spillAfterGr int64 // a spill happened and the table had grown
 	readbacks    int64
 	outcomes     *ev.Counter
+	sample       sync.Once
 }
 
 type terminal struct {
@@ -267,6 +269,12 @@ func (s *combSpace) run(h hist) (id stateID, ok bool) {
 		return id, false
 	}
 	s.st.outcomes.Add(ev.Hash(kd.name + rows))
+	if nspill >= 2 && d.s.Cap > s.z.InitCap {
+		s.st.sample.Do(func() {
+			s.r.Sample(map[string]interface{}{"object": "combiner", "space": s.label(), "history": h.names(s.al), "spill_files": nspill,
+				"rows_held_in_table_and_runs": rowsString(kd, allK, allV), "read_back_by": s.terms[0].name, "rows_read_back": rows, "model": m.String(kd)})
+		})
+	}
 	return id, true
 }
 
